@@ -81,6 +81,18 @@ func lit(e ast.Expr) string {
 		return lit(v.X) + v.Op.String() + lit(v.Y)
 	case *ast.UnaryExpr:
 		return v.Op.String() + lit(v.X)
+	case *ast.CompositeLit:
+		elts := make([]string, len(v.Elts))
+		for i, a := range v.Elts {
+			elts[i] = lit(a)
+		}
+		t := ""
+		if v.Type != nil {
+			t = lit(v.Type)
+		}
+		return t + "{" + strings.Join(elts, ",") + "}"
+	case *ast.KeyValueExpr:
+		return lit(v.Key) + ":" + lit(v.Value)
 	}
 	return fmt.Sprintf("<%T>", e)
 }
